@@ -12,16 +12,16 @@ RULE = ('reactions assembled from corpus / curated molecules: products derived f
         'edits (bond order change, bond formation / cleavage, charge and radical change, atoms present on one side only); 0-3 '
         'molecules per role incl. empty roles, multi-component salts, radicals; all role-internal orders; consistent '
         'renumbering of both sides; oracle: the recorded edit list is the ground truth for every dynamic bond / atom and for '
-        'center_atoms; string equalities for order-free identity; read-back compared role by role; non-trivial = reaction with '
+        'center_atoms; string equalities for order-free identity; read-back compared role by role; compose() leaves the reaction and its molecules unchanged; non-trivial = reaction with '
         '>= 1 recorded edit or >= 2 molecules in a role, distinct by reaction string')
 ASSUMPTIONS = ['CachedMethods compatibility shim', 'molecules inside one reaction carry disjoint atom numbers except mapped '
                'reactant/product pairs (as the reaction reader produces them)']
 CONFIG = {
-    'quick': {'shards': 16, 'budget_s': 120, 'n': 1600,
+    'quick': {'shards': 16, 'budget_s': 120, 'n': 4000,
               'floors': {'evaluations': 8000, 'distinct_nontrivial': 1200, 'cgr.compared': 1400, 'cgr.dynamic-bonds-checked': 1500,
                          'cgr.identical-sides': 150, 'order.permutations': 1500, 'readback.compared': 1400, 'readback.empty-role': 100,
                          'cgr.renumbered': 1200}},
-    'thorough': {'shards': 16, 'budget_s': 1500, 'n': 40000,
+    'thorough': {'shards': 16, 'budget_s': 1500, 'n': 150000,
                  'floors': {'evaluations': 200000, 'distinct_nontrivial': 20000, 'cgr.compared': 35000,
                             'cgr.dynamic-bonds-checked': 40000, 'cgr.identical-sides': 3000, 'order.permutations': 40000,
                             'readback.compared': 35000, 'readback.empty-role': 2500, 'cgr.renumbered': 30000}},
@@ -105,6 +105,17 @@ def edit_product(r, rng, k):
             else:
                 bt[k2] = (None, o2) if (n in common or m in common) else None
     return p, bt, at
+
+
+def _macrocycle_bond_at_small_ring_atom(m):
+    """a labelled double bond that lies only in rings of 8 and more atoms while one of its atoms also belongs to a smaller ring"""
+    rings = m.sssr
+    for n, k, b in m.bonds():
+        if b.order == 2 and b.stereo is not None:
+            both = [r for r in rings if n in r and k in r]
+            if both and all(len(r) >= 8 for r in both) and any(len(r) < 8 for r in rings if (n in r) != (k in r)):
+                return True
+    return False
 
 
 def check_cgr(ctx, r, p, bt, at, src, reagents=()):
@@ -223,9 +234,13 @@ def check_readback(ctx, rx, src):
             a = sorted(_norm_str(m) for m in getattr(rx, role))
             b = sorted(_norm_str(m) for m in getattr(back, role))
             if a != b:
-                if any(SY.has_equivalent_substituents(m) or T.ring_diene_ct(m) for m in getattr(rx, role)):
+                if any(SY.has_equivalent_substituents(m) or T.ring_diene_ct(m) or SY.symmetric_cage(m) for m in getattr(rx, role)):
                     ctx.exclude('canonical-string-gap', {'reaction': s})
                     continue
+                if any(_macrocycle_bond_at_small_ring_atom(m) for m in getattr(rx, role)):
+                    # recorded finding: the label exists on the edited molecule but the reader's perception drops it
+                    ctx.violation('readback-role-differs/double-bond-of-a-large-ring-at-an-atom-of-a-small-ring', '%s (%s)' % (s, role), w)
+                    return
                 ctx.violation('readback-role-differs/%s%s' % (role, '/empty-role' if 0 in shape else ''),
                               '%s (style %r): %s vs %s' % (text, spec, a, b), w)
                 return
